@@ -282,7 +282,7 @@ func TestCheck(t *testing.T) {
 			cases = append(cases, faults.Case{Kind: "hello-truncation", Proto: "h2", K: k})
 		}
 	}
-	for k := 0; k < 6; k++ {
+	for k := 0; k < faults.H2Frames; k++ {
 		for v := 0; v < faults.H2FieldVariants(); v++ {
 			cases = append(cases, faults.Case{Kind: "h2-mutation", Proto: "h2", K: k, Val: v})
 		}
